@@ -35,10 +35,10 @@ class CUSUMModel:
     def _estimate(self, xs):
         """mean / population sd of an estimation window.  A window that is constant up to rounding
         makes everything that follows numerically undetermined (the implementation's sd may be 0 or
-        1e-10): flagged degenerate unless it consists of identical small integers (exact in any order)."""
+        1e-10 times the level): flagged degenerate unless it consists of identical small integers (exact in any order)."""
         m, sd = _mean(xs), _pstd(xs)
-        scale = max(max(abs(x) for x in xs), 1.0)
-        if sd <= 1e-9 * scale:
+        scale = max(abs(x) for x in xs)  # relative to the data's own unit: streams recorded in units of 1e-9 are ordinary streams
+        if sd <= 1e-9 * scale or scale == 0:
             exact = all(x == xs[0] for x in xs) and float(xs[0]).is_integer() and abs(xs[0]) < 2 ** 20
             if not exact:
                 self.degenerate = True
